@@ -100,6 +100,7 @@ HUGE_TOLS = [1e154, 1.3407807929942597e154, 1.4e154, 1e200, 1e308, 1.79769313486
 
 
 FINDING_AIRE = "vw-user-feature-named-aire"
+FINDING_ORPHAN = "vw-feature-values-without-dict-entry"
 ERRMAP = {"err:AnalyticalFeatureError": "err:AnalyticalFeatureError", "err:IndexError": "err:index",
           "err:NameError": "err:NameError", "err:RecursionError": "err:recursion", "err:KeyError": "err:key"}
 ALGO_OF_MODE = {"TV.Simplify.Algo.douglasPeucker": "douglas_peucker", "TV.Simplify.Algo.visvalingam": "visvalingam",
@@ -140,15 +141,21 @@ class P(Prop):
         (M, "TV.C16.simplify_dispatch", "simplify(track, tol, 1) is douglas_peucker, mode 2 is visvalingam, a mode outside 1..8 raises (NameError); modes 3..8 call other functions, outside the statement"),
         (M, "TV.C16.vw_sentinel_first_pass", "T6' (round 1's open statement, now proved): when no interior fix has an initial area below ARGMIN's initial minimum (+inf since 68863c7: the areas are inf or NaN), ARGMIN answers 0, NaN > eps is False, and the first pass removes the FIRST observation; any scalar type"),
         (M, "TV.C16.vw_all_below", "T11: when no triangle of the track has an area > eps*eps (in particular eps*eps = +inf: every tolerance from 1.34e154 up to the largest double, since b704eae) Visvalingam returns exactly the first and the last observation; under T6's hypothesis, any scalar type"),
+        (M, "TV.C16.vw_any", "T12 (no hypothesis on the areas: infinite, NaN, mixed columns, every pass; any scalar type, the Float model included): Visvalingam's result is a sub-sequence of the input observations, the LAST observation is kept, a track of >= 2 observations keeps >= 2, and the loop stops by itself within len(track) passes"),
+        (M, "TV.C16.vw_track_any", "T12 on the Track object (well-formed feature table without '@aire', non-empty track, any areas): the call succeeds, the observations returned (feature rows included) are a sub-sequence, the last observation is kept, >= 2 observations of >= 2"),
+        (M, "TV.C16.simplify_nodata", "simplify() never reads track.no_data_value (set by the readers): the observations returned for a track carrying the attribute are those returned without it -- no placeholder fix is left out --, errors included; the result's own attribute is None after Douglas-Peucker (a new Track) and the input's after Visvalingam (the copy)"),
+        (M, "TV.C16.simplify_nodata_dp_correct", "the statement of C16 for Douglas-Peucker through simplify() on a reader-made track (ordered field, exact sqrt): whatever no_data_value and wherever the placeholder fixes (first and last included), a result exists, is a sub-sequence of ALL input observations with both ends, and every input observation is within eps of the returned polyline"),
+        (M, "TV.C16.net_simplify_each", "Network.simplify(tolerance, mode) is simplify() on every edge geometry in the edges' order: when it succeeds the i-th geometry is what simplify returns for the i-th input geometry"),
         (M, "TV.C16.vw_threshold", "T10 (threshold semantics, linear order): under T6's hypothesis every interior fix of Visvalingam's result spans with its two neighbours in the result a triangle of area > eps^2 (the '@aire' column stays consistent with the current neighbours; ARGMIN designates a smallest entry)"),
     ]
     partial = []
     open_statements = [
         "IEEE rounding: T3 (field form), T4 and T5 are over a linearly ordered field with an exact sqrt; on floats the tolerance is sampled by the transfer "
         "check with relative slack 1e-9 on eps plus absolute slack 1e-13 x (largest |coordinate|) (T1, T2, T6 and the scalar-independent T3 do apply to the Float model as they assume nothing about the scalar)",
-        "Visvalingam beyond the FIRST pass when areas are infinite or NaN, i.e. not below ARGMIN's initial minimum +inf (coordinates ~1e154 and more, not ENU tracks): "
-        "T6' proves that the first pass removes the first fix when no area is below the sentinel; mixed columns and the later passes are only compared "
-        "with the model (stream `wild`)",
+        "Visvalingam when areas are infinite or NaN, i.e. not below ARGMIN's initial minimum +inf (coordinates ~1e154 and more, not ENU tracks): T12 (vw_any) now proves, "
+        "for every column and every pass, sub-sequence, last observation kept, >= 2 kept and termination; T6' proves that the first pass removes the FIRST fix when no "
+        "area is below the sentinel. Still open: an input-level characterisation of when the first observation survives a MIXED column (some areas finite, some not) -- "
+        "compared with the model only (stream `wild`)",
         "T10 (vw_threshold) is proved over a linear order; on floats the areas are rounded, so an area within an ulp of eps^2 may fall on either side "
         "(model and code agree bit for bit there: correspondence)",
     ]
@@ -161,10 +168,20 @@ class P(Prop):
                 "Track(L) / Track([L[0], L[n-1]], uid, tid, base) / Track(L[0:imax], ...) + Track(L[imax:n], ...) with Track.__add__'s "
                 "rule for uid/tid/base and the feature dict (C04's sameNames); visvalingam's track.copy(), addAnalyticalFeature(aire_visval, '@aire') "
                 "(createAnalyticalFeature when new: column len(dico), 0.0; an empty track raises), setObsAnalyticalFeature('@aire', 0, nan), "
-                "the loop on that column of the feature rows (getObsAnalyticalFeature, C04's removeObs), removeAnalyticalFeature('@aire') with its index shift")
+                "the loop on that column of the feature rows (getObsAnalyticalFeature, C04's removeObs), removeAnalyticalFeature('@aire') with its index shift. "
+                "Attributes and entry points (Model/SimplifyTrack.lean, end): the Track attribute no_data_value that TrackReader.readFromFile sets (simplifyN: never read by "
+                "simplify/douglas_peucker/visvalingam -- removeNoDataValues is not on the path --, None on a Douglas-Peucker result through Track.__init__, the input's on "
+                "Visvalingam's copy); core/network.py Network.simplify (netSimplify: simplify on every edge geometry in insertion order, first exception ends the call). "
+                "The positions' class (ENUCoords / GeoCoords / ECEFCoords) only matters through getX()/getY(), the first two stored components for all three (harness: the "
+                "class of the returned positions is the input's). The tolerant ENUCoords.__eq__ (1e-4 per axis) is NOT on the path: the model compares coordinates exactly")
     trusted = [               "Track.copy is a deep copy (the model is functional: it cannot write its input; the harness compares a full snapshot of the input "
                "track before and after every call: observations' identity, positions, times, feature rows, feature dict, uid/tid/base)",
                "z coordinates and timestamps are not in the model (the algorithms never read them); the harness checks they travel unchanged",
+               "a track made by TrackReader.readFromFile is taken as the reader made it (what the reader does with blank / NA fields is C13's model, TV.TextIO): the harness "
+               "writes the file, reads it back, checks that the track is the one the case describes (placeholder fixes at no_data_value, no_data_value attribute, tid = file name, "
+               "features through read_all) and simplifies that object",
+               "one Obs object occurring twice in a track (track + track, addObs(track[0])) is outside the model, which is on values: Visvalingam stores its areas in the Obs "
+               "objects, so two positions then share one '@aire' value (findings/C16.json, class vw-shared-obs-object; not generated)",
                "feature rows are as long as the feature dict says (C01's invariant)",
                "CPython's recursion limit (1000 frames) is outside the model: douglas_peucker recurses once per split level, T3 proves the depth is at most len(track), "
                "and a track of more than ~1000 fixes shaped so that every split peels one fix raises RecursionError (findings/C16.json, class dp-recursion-depth; "
@@ -183,6 +200,13 @@ class P(Prop):
             "the Track-level model: kept observations, positions, feature rows, feature dict and column indices, uid/tid/base; the input track's full snapshot must be "
             "unchanged. The oracle additionally requires every returned observation to carry the feature values of the input observation and the input to be left "
             "unmodified. All Track objects of 2 and 3 fixes on {0,1}^2 are enumerated. [stream `mode`] which function simplify() calls for modes -2..11. "
+            "[attributes, all on the `trk` stream] a quarter of the tracks carry no_data_value (-999999, -9999, -1, 0, 1 or a coordinate of the track), 70 % of those with 1-3 "
+            "placeholder fixes (x = y = z = the value) as first / last / interior fix; 12 % have GeoCoords or ECEFCoords positions (oracle: every clause but the planar tolerance); "
+            "12 % are written to a CSV file (NA for the placeholders, optional U column, features through read_all) and read back with TrackReader.readFromFile; entry point "
+            "Network.simplify on a network whose first or second edge has the track as geometry; observations carrying feature values without dict entry (Track(other.getObsList()), "
+            "i.e. a Douglas-Peucker result as input), Douglas-Peucker always, Visvalingam when the finding is listed. [small units, streams dp/vw/trk] lattices of unit 1e-6..1e-3 "
+            "around (0,0), (0.5,0.5), (2.35,48.85), ..., with or without a fix a unit away (differences below / around the 1e-4 of the tolerant ENUCoords.__eq__), long shapes scaled "
+            "by 1e-6..1e-3, tolerances = fractions / small multiples of the smallest coordinate difference and 1e-7..1e-3. [stream `mode`] also mode given as float / bool. "
             "[stream `wild`] coordinates outside any ENU frame (1e101..1e308, inf, NaN, denormals; squares overflow, areas reach ARGMIN's sentinel): the oracle's "
             "domain is finite coordinates up to 1e100 (ENU metres), beyond it only model and code are compared. "
             "non-trivial = at least 3 fixes (a fix can be dropped)")
@@ -393,6 +417,12 @@ class P(Prop):
             else:
                 c["ts"] = [rng.randrange(0, 100000) for _ in range(n)]
         self.rand_attrs(rng, c)
+        if names and c.get("src") != "csv" and rng.random() < 0.08 and (algo == "dp" or self.listed(FINDING_ORPHAN)):
+            # observations that carry feature values the track's dict does not name: Track(other.getObsList()), which is also what
+            # douglas_peucker itself returns (so: Visvalingam applied to a Douglas-Peucker result)
+            c["orphan"] = True
+            if algo == "vw":
+                c.pop("ts", None)                       # the first feature value does not survive (the finding): identify by timestamp
         return c
 
     def rand_attrs(self, rng, c):
@@ -457,6 +487,9 @@ class P(Prop):
         out = []
         for m in range(-2, 12):
             out.append({"kind": "mode", "mode": m})
+            out.append({"kind": "mode", "mode": m, "form": "float"})     # `mode == 1` is numeric equality: 1.0, True select like 1
+        out.append({"kind": "mode", "mode": 0, "form": "bool"})
+        out.append({"kind": "mode", "mode": 1, "form": "bool"})
         lat2 = [(x, y) for x in range(2) for y in range(2)]
         for n in (2, 3):
             for pts in itertools.product(lat2, repeat=n):
@@ -543,6 +576,7 @@ class P(Prop):
                 "placeholders" if any(x == case["nodata"] for x in case["xs"]) else "set")
             t["coords"] = case.get("coords", "ENU")
             t["src"] = case.get("src", "obj")
+            t["orphan_rows"] = bool(case.get("orphan"))
             t["algo"] = case["algo"]
             t["features"] = len(case["names"])
             t["pre_calls"] = len(case.get("pre", []))
@@ -578,6 +612,8 @@ class P(Prop):
         if obs:
             for j, name in enumerate(case["names"]):
                 tr.createAnalyticalFeature(name, [fv(r[j]) for r in case["rows"]])
+        if case.get("orphan"):
+            tr = self.Track(tr.getObsList(), case["uid"], case["tid"], case["base"])   # the observations keep their values, the dict is empty
         if case.get("nodata") is not None:
             tr.no_data_value = case["nodata"]
         return tr
@@ -675,7 +711,9 @@ class P(Prop):
                 setattr(S, n, (lambda nn: (lambda *a, **k: called.append(nn)))(n))
             tr = self.Track([self.Obs(self.ENU(0, 0, 0), self.T.readUnixTime(0)), self.Obs(self.ENU(1, 1, 0), self.T.readUnixTime(1))])
             try:
-                S.simplify(tr, 1.0, case["mode"], False)
+                m = case["mode"]
+                m = float(m) if case.get("form") == "float" else (bool(m) if case.get("form") == "bool" else m)
+                S.simplify(tr, 1.0, m, False)
             except NameError:
                 called.append("err:NameError")
         finally:
@@ -757,10 +795,11 @@ class P(Prop):
             algo = case["algo"]
             rows = ";".join(fl(r) for r in case["rows"]) if (case["rows"] and case["names"]) else "_"
             def geom(c, rows):
+                named = c["names"] and not c.get("orphan")
                 return "%s %s %d %d %s %s %s %s" % (
                     fl(c["xs"]), fl(c["ys"]), c["uid"], c["tid"],
-                    "_" if c["base"] is None else str(c["base"]), ",".join(c["names"]) if c["names"] else "_",
-                    ",".join(str(j) for j in range(len(c["names"]))) if c["names"] else "_", rows)
+                    "_" if c["base"] is None else str(c["base"]), ",".join(c["names"]) if named else "_",
+                    ",".join(str(j) for j in range(len(c["names"]))) if named else "_", rows)
             nd = "_" if case.get("nodata") is None else fbits(case["nodata"])
             head = "%d %s" % (1 if algo == "dp" else 2, fbits(case["tol"]))
             if case["via"] == "network":                    # Network.simplify: the model of the loop over the edges (netSimplify)
@@ -932,7 +971,7 @@ class P(Prop):
             return "%s dropped the last observation: kept %s" % (name, kept)
         if k == "trk":
             # "a subsequence of the input OBSERVATIONS": an observation is its position, its timestamp and its feature values
-            want = [[fv(v) for v in case["rows"][i]] if case["names"] else [] for i in kept]
+            want = [[fv(v) for v in case["rows"][i]] if case["names"] else [] for i in kept]      # (orphan values included)
             if not same_rows(out["rows"], want):
                 j = next(j for j in range(len(kept)) if not same_rows([out["rows"][j]], [want[j]]))
                 return "%s returned observation %d with feature values %s, the input observation has %s" % (
@@ -970,12 +1009,19 @@ class P(Prop):
         of TV.C16.vw_sublist_ends; such coordinates are outside the oracle's domain (> 1e100) and only produced by the `wild` stream
         (correspondence).
         'vw-user-feature-named-aire': the input track has a feature called '@aire' (the name of Visvalingam's temporary column):
-        it is overwritten in the working copy and deleted from the result (example in Props/C16.lean; outside `FreshTable`)."""
+        it is overwritten in the working copy and deleted from the result (example in Props/C16.lean; outside `FreshTable`).
+        'vw-feature-values-without-dict-entry': the observations carry more feature values than the track's dict names (a track built
+        with Track(other.getObsList()) -- in particular every Douglas-Peucker result of a track with features): createAnalyticalFeature
+        takes column len(dico) for '@aire' but appends the slot at the end of the row, so the areas overwrite the first value and
+        removeAnalyticalFeature deletes it: the observations returned have lost their first feature value and gained a trailing 0.0
+        (example in Props/C16.lean; outside `FreshTable`). Generated only when listed."""
         algo = case.get("algo") if case.get("kind") == "trk" else case.get("kind")
         if algo != "vw":
             return None
         if case.get("kind") == "trk" and "@aire" in case.get("names", []):
             return FINDING_AIRE
+        if case.get("kind") == "trk" and case.get("orphan") and case.get("names") and "feature values" in (msg or ""):
+            return FINDING_ORPHAN
         if not finite_case(case):
             return "vw-area-reaches-argmin-sentinel"
         if all(abs(fv(v)) <= 1e100 for v in case["xs"] + case["ys"]):
@@ -1026,6 +1072,8 @@ class P(Prop):
                 yield dict(case, zs=None)
             if case.get("ts"):
                 yield dict(case, ts=None)
+            if case.get("orphan"):
+                yield dict(case, orphan=False)
             if len(case["names"]) > 1:
                 yield dict(case, names=case["names"][:1], rows=[r[:1] for r in case["rows"]])
             if case["names"] and not case.get("ts"):
